@@ -14,7 +14,7 @@ func init() {
 	register(&Property{
 		ID:      "C14",
 		NeedGen: true,
-		Runtime: RuntimeCore,
+		Runtime: append(append([]string{}, RuntimeCore...), "./handler"),
 		Run:     runC14,
 		Explanation: "Structure of the complexity gate: (limit-gate) in ComplexityLimit.MutateOperationContext the edge on which complexity.Calculate's result exceeds Func's result only reaches non-nil error returns and the " +
 			"other edge only nil returns (with C03/fail-closed: over-limit ⇒ no dispatch); (saturating-only) in package complexity integer arithmetic on complexities happens only inside safeAdd, whose raw sum is " +
